@@ -56,25 +56,51 @@ pub fn gate_model(ix: &Index) -> Result<GateModel, String> {
         }
     }
     let mut uns = ev.unsupported.borrow().clone();
-    // 2. is_match_cmp_attr per attribute
-    let f = ix.fns.iter().find(|(_, d)| d.iter().any(|f| f.self_ty.as_deref() == Some("HelperAttributeKinds") && f.sig.inputs.len() == 2 && quote::ToTokens::to_token_stream(&f.sig.inputs).to_string().contains("CompareOp") && quote::ToTokens::to_token_stream(&f.sig.output).to_string().contains("bool"))).map(|(_, d)| d[0].clone()).ok_or("no HelperAttributeKinds predicate over CompareOp")?;
+    // 2. the gate is read off its consumer: the constructor of the five comparison helper attributes
+    //    parses attribute `a` (instead of taking the default) under which derived sets?
+    let sigt = |f: &crate::index::FnDef| quote::ToTokens::to_token_stream(&f.sig).to_string().replace(' ', "");
+    let ctor = ix.fns.values().flatten().find(|f| f.self_ty.as_deref() == Some("HelperAttributesForCompareOp") && sigt(f).contains("HelperAttributeKinds") && sigt(f).contains("Result<Self>")).cloned().ok_or("constructor of the comparison helper attributes (attrs, kinds) -> Result<Self> not found")?;
+    let parser = ix.fns.values().flatten().find(|f| f.self_ty.as_deref() == Some("HelperAttributeForCompareOp") && sigt(f).contains("CompareOp") && sigt(f).contains("Result<Self>")).cloned().ok_or("parser of one comparison helper attribute (attrs, op) -> Result<Self> not found")?;
+    let getf = ix.fns.values().flatten().find(|f| f.self_ty.as_deref() == Some("HelperAttributesForCompareOp") && sigt(f).contains("CompareOp") && sigt(f).contains("->&HelperAttributeForCompareOp")).cloned().ok_or("accessor (op) -> &HelperAttributeForCompareOp not found")?;
+    let mut ev = ev;
+    ev.stops.push((parser.qual.clone(), "opaque"));
+    // slot of each op
+    let mut slot = Vec::new();
+    for tn in TRAITS {
+        let o = ev.call_fn(St::new(), &getf, Some(sym("HelperAttributesForCompareOp", "cmp")), vec![Val::Enum { ty: "CompareOp".into(), var: tn.to_string(), args: vec![] }]);
+        let p = o.into_iter().find_map(|(_, fl)| if let Flow::Val(Val::Sym { path, .. }) = fl { path.strip_prefix("cmp.").map(|x| x.to_string()) } else { None }).ok_or(format!("slot of {tn} not found"))?;
+        slot.push(p);
+    }
+    let outs = ev.call_fn(St::new(), &ctor, None, vec![Val::Sym { ty: Ty::Slice(Box::new(Ty::Named("Attribute".into(), vec![]))), path: "attrs".into() }, sym("HelperAttributeKinds", "kinds")]);
     let mut gate = [[false; 32]; 5];
-    let mut paths = 0;
-    for a in 0..5 {
-        let outs = ev.call_fn(St::new(), &f, Some(sym("HelperAttributeKinds", "kinds")), vec![Val::Enum { ty: "CompareOp".into(), var: TRAITS[a].to_string(), args: vec![] }]);
-        paths += outs.len();
-        for d in 0..32u32 {
-            let mut assign = BTreeMap::new();
-            for (fname, what) in &field_of {
-                let v = match trait_idx(what) { Some(t) => d & (1 << t) != 0, None => false };
-                assign.insert(format!("kinds.{fname}"), v);
-            }
-            match eval_bool(&outs, &assign) {
-                Some(b) => gate[a][d as usize] = b,
-                None => return Err(format!("gate predicate for #[{}] not decided under derived set {{{}}}", ATTRS[a], set_to_traits(d))),
+    let paths = outs.len();
+    for d in 0..32u32 {
+        let mut assign = BTreeMap::new();
+        for (fname, what) in &field_of {
+            let v = match trait_idx(what) { Some(t) => d & (1 << t) != 0, None => false };
+            assign.insert(format!("kinds.{fname}"), v);
+        }
+        let mut found = false;
+        for (st, fl) in &outs {
+            // successful parse paths only
+            if !st.cond.iter().all(|(a, b)| if a.starts_with("ok(") || a.contains(" is Ok") { *b } else { assign.get(a).map(|x| x == b).unwrap_or(false) }) { continue; }
+            let v = match fl { Flow::Val(Val::Enum { var, args, .. }) | Flow::Ret(Val::Enum { var, args, .. }) if var == "Ok" => args.first().cloned(), _ => None };
+            let Some(Val::Struct { fields, .. }) = v else { continue };
+            found = true;
+            for a in 0..5 {
+                let Some((_, fv)) = fields.iter().find(|(n, _)| *n == slot[a]) else { return Err(format!("slot {} not initialised by the constructor", slot[a])) };
+                let parsed = fv.any(&|x| matches!(x, Val::Opaque { what, .. } if *what == parser.sig.ident.to_string()));
+                if parsed {
+                    // wiring: parsed with its own op
+                    let own = fv.any(&|x| matches!(x, Val::Opaque { what, deps } if *what == parser.sig.ident.to_string() && deps.iter().any(|y| matches!(y, Val::Enum { ty, var, .. } if ty == "CompareOp" && var == TRAITS[a]))));
+                    if !own { return Err(format!("slot {} is parsed with another trait's attribute name", slot[a])); }
+                }
+                gate[a][d as usize] = parsed;
             }
         }
+        if !found { return Err(format!("no successful path of the constructor under derived set {{{}}}", set_to_traits(d))); }
     }
+    let f = ctor.clone();
     uns.extend(ev.unsupported.borrow().clone());
     if !uns.is_empty() { return Err(format!("unanalysable: {}", uns.join("; "))); }
     Ok(GateModel { field_of, gate, paths, site: format!("{}:{} {}", f.file, f.line, f.qual) })
